@@ -196,6 +196,9 @@ async fn run_scen(a: &Args, m: &mut mon::Mon) {
         let g = s.g;
         let lq = s.liquidator;
         let rounds = if a.tier == "thorough" { 40 } else { 12 };
+        if a.prop == "C05" {
+            scen::flat_liquidation(&mut w, m, &mut r, g, lq).await;
+        }
         for _ in 0..rounds {
             if t0.elapsed() >= a.budget {
                 break;
@@ -296,6 +299,9 @@ async fn run_admin(a: &Args, m: &mut mon::Mon) {
         let cfg = storm::StormCfg { n_banks: r.gen_range(3..=5), n_users: 3, program_fees: r.gen_bool(0.7), magnitude: 1, with_staked: false, n_isolated: 1, emode: false, n_venue: 0 };
         let (mut w, mut s) = storm::Storm::build(seed, cfg).await;
         let g = s.g;
+        if a.prop == "C08" {
+            w.enable_impostor().await;
+        }
         let mut ad = admin::Admin { g, emint: None, steps: 0 };
         let rounds = if a.tier == "thorough" { 3000 } else { 700 };
         let mut staked_done = false;
@@ -568,6 +574,7 @@ async fn run_matrix(a: &Args, m: &mut mon::Mon) {
         let mut r = storm::rng(seed);
         let (mut w, t) = matrix::build_twin_v(seed, &mut r, true).await;
         if a.prop == "C08" {
+            w.enable_impostor().await;
             matrix::run_c08(&mut w, m, &mut r, &t).await;
         } else {
             // the wipe-out (killed-bank cells) comes first in every other world so that it is
